@@ -308,3 +308,8 @@ mod test {
         assert_eq!(info.to_bytes(), info2.to_bytes());
     }
 }
+
+#[cfg(kani)]
+mod verif_kani {
+    include!(concat!(env!("IPA_VERIF_DIR"), "/kani/report_hybrid_info.rs"));
+}
